@@ -21,6 +21,7 @@ import (
 	"fmt"
 	"io"
 	"strings"
+	"unicode/utf8"
 )
 
 type token int
@@ -544,6 +545,9 @@ func (t *tokenizer) readQuotedSymbol() (string, error) {
 			return "", t.invalidChar(c)
 
 		case '\'':
+			if err := t.checkUTF8(ret.String()); err != nil {
+				return "", err
+			}
 			return ret.String(), nil
 
 		case '\\':
@@ -611,6 +615,9 @@ func (t *tokenizer) readString() (string, error) {
 
 		switch c {
 		case '"':
+			if err := t.checkUTF8(ret.String()); err != nil {
+				return "", err
+			}
 			return ret.String(), nil
 
 		case '\\':
@@ -662,6 +669,7 @@ func (t *tokenizer) readClob() ([]byte, error) {
 // ReadLongString reads a triple-quoted string.
 func (t *tokenizer) readLongString() (string, error) {
 	ret := strings.Builder{}
+	segStart := 0 // where the current ''' segment starts in ret
 
 	for {
 		c, err := t.read()
@@ -678,6 +686,13 @@ func (t *tokenizer) readLongString() (string, error) {
 			isEndOfString, isConsumed, err := t.skipEndOfLongString(t.skipCommentsHandler)
 			if err != nil {
 				return "", err
+			}
+			if isConsumed {
+				// The end of a segment: each segment is UTF-8 text by itself.
+				if err := t.checkUTF8(ret.String()[segStart:]); err != nil {
+					return "", err
+				}
+				segStart = ret.Len()
 			}
 			if isEndOfString {
 				return ret.String(), nil
@@ -812,6 +827,15 @@ func (t *tokenizer) readHexEscapeSeq(length int) (rune, error) {
 	}
 
 	return val, nil
+}
+
+// checkUTF8 returns an error unless s, the text of a string or symbol as it
+// was read from the input, is valid UTF-8.
+func (t *tokenizer) checkUTF8(s string) error {
+	if !utf8.ValidString(s) {
+		return &SyntaxError{"invalid UTF-8 encoding", t.pos - 1}
+	}
+	return nil
 }
 
 func (t *tokenizer) fromHex(c int) (int, error) {
